@@ -1,4 +1,5 @@
 import CalmVerif.Props.C06
+import CalmVerif.Props.C12lex
 open CalmVerif.Props.C06
 #print axioms lexer_terminates
 #check @lexer_terminates
@@ -8,8 +9,8 @@ open CalmVerif.Props.C06
 #check @tokens_partition_input
 #print axioms tokens_strictly_ordered
 #check @tokens_strictly_ordered
-#print axioms ignore_set_is_es5_whitespace_plus_ls_ps
-#check @ignore_set_is_es5_whitespace_plus_ls_ps
+#print axioms ignore_set_is_es5_whitespace
+#check @ignore_set_is_es5_whitespace
 #print axioms punctuators_longest_first
 #check @punctuators_longest_first
 #print axioms punctuator_maximal_munch
@@ -18,3 +19,13 @@ open CalmVerif.Props.C06
 #check @id_keyword_iff
 #print axioms keyword_exact
 #check @keyword_exact
+#print axioms positions_are_counted
+#check @positions_are_counted
+#print axioms CalmVerif.Props.C12lex.lexer_no_internal
+#check @CalmVerif.Props.C12lex.lexer_no_internal
+#print axioms CalmVerif.Props.C12lex.token_no_internal
+#check @CalmVerif.Props.C12lex.token_no_internal
+#print axioms CalmVerif.Props.C12lex.backtracked_token_no_internal
+#check @CalmVerif.Props.C12lex.backtracked_token_no_internal
+#print axioms CalmVerif.Props.C12lex.lexer_no_model_gap_rules
+#check @CalmVerif.Props.C12lex.lexer_no_model_gap_rules
